@@ -132,6 +132,10 @@ class ProgramIndex:
             self.struct_named[name] = not e.get("tuple")
             fl = e.get("fields") or []
             self.struct_fields.setdefault(name, [f.get("name") for f in fl if isinstance(f, dict) and f.get("name")])
+        self.consts = {}
+        for (path, st, name), ce in ast.consts.items():
+            if st is None and isinstance(ce, dict) and is_node(ce.get("expr")) and not path.endswith("tests.rs"):
+                self.consts.setdefault(name, []).append(ce["expr"])
         self.variant_pos = {}
         for (path, name), e in ast.enums.items():
             for k, v in enumerate(e.get("variants", [])):
@@ -271,6 +275,18 @@ class AEval(dtable.Eval):
                 return B(p == "true")
             if p in ("Cow::Owned", "Cow::Borrowed", "std::borrow::Cow::Owned", "std::borrow::Cow::Borrowed"):
                 return ("ident-fn", p)
+            last_ = p.split("::")[-1]
+            if PROGRAM is not None and last_.isupper() and len(last_) > 1 and last_ in PROGRAM.consts:
+                # a `const` / `static` of the analysed tree (SCREAMING_CASE): its initialiser, interpreted
+                ce = PROGRAM.consts[last_]
+                if len(ce) == 1 and self.depth < 12:
+                    self.depth += 1
+                    try:
+                        return self.ex(ce[0], {})
+                    except Unknown:
+                        pass
+                    finally:
+                        self.depth -= 1
             if p.split("::")[-1][:1].isupper():
                 return C(p.split("::")[-1])
             if p in ("Box::new", "Into::into", "From::from", "Rc::new", "Arc::new", "Some", "Ok", "Err", "std::convert::identity"):
@@ -285,6 +301,13 @@ class AEval(dtable.Eval):
                 return ("method-fn", p.split("::")[-1])
             if "::" in p and p.split("::")[-1] in self.builtins:
                 return ("builtin-fn", p.split("::")[-1])
+            if PROGRAM is not None and not p.split("::")[-1][:1].isupper():
+                # a function of the analysed tree used as a value (`.map(helper)`)
+                cands = [f2 for f2 in PROGRAM.by_name.get(p.split("::")[-1], []) if not f2.impl_self] if "::" not in p or p.split("::")[-2][:1].islower() else \
+                    PROGRAM.by_qual.get((p.split("::")[-2], p.split("::")[-1]), [])
+                pf = PROGRAM._pick(cands, self._cur_file()) if cands else None
+                if pf is not None:
+                    return ("localfn", pf)
             raise Unknown("free variable " + p)
         if k == "Lit":
             if e.get("text") in ("true", "false"):
@@ -1064,7 +1087,17 @@ class AEval(dtable.Eval):
                 return DEFAULT          # the Default of a type parameter
             if f["path"] in ("Cow::Owned", "Cow::Borrowed", "std::borrow::Cow::Owned", "std::borrow::Cow::Borrowed") and len(args) == 1:
                 return args[0]
-            if last in self.funcs:
+            if len(segs) == 1 and last in self.funcs and self.funcs[last].impl_self and PROGRAM is not None:
+                # a bare call `name(..)` denotes a free function, not the method of that name of some impl in the file
+                free = [f2 for f2 in PROGRAM.by_name.get(last, []) if not f2.impl_self and len(f2.node["sig"]["inputs"]) == len(args)]
+                pf = PROGRAM._pick(free, self._cur_file() or self.funcs[last].file) if free else None
+                if pf is not None:
+                    v = self._call_program_fn(pf, args)
+                    self._write_back(e["args"], env)
+                    return v
+            if last in self.funcs and not (len(segs) >= 2 and segs[-2][:1].isupper() and segs[-2] != "Self" and (self.funcs[last].impl_self or "") \
+                                           and (self.funcs[last].impl_self or "").split("<")[0].split("::")[-1].lstrip("&") != segs[-2]):
+                # (a path `Type::name` never denotes the `name` of another type's impl)
                 v = self.call_fn(last, args)
                 self._write_back(e["args"], env)
                 return v
